@@ -130,6 +130,33 @@ Theorem C01_wwtw_calculate_discharge_conserves : forall S (w : Wtw.wwtw S) c, co
 Proof. exact WtwLaws.ww_calculate_conserves. Qed.
 Print Assumptions C01_wwtw_calculate_discharge_conserves.
 
+(* FWTW.treat_water against ANY neighbours meeting the reply contract: reservoir gain + sent to sewers + booked as not taken
+   by the sewers = abstracted over the in-arcs + booked as made up (deficit) + treated water still on the books (none after a
+   close-out); volume and every additive pollutant, any process parameters and temperature.  The treated water and the waste
+   handed on in the step are assumed wet (no pollutant mass without water: well-formed process parameters) *)
+Theorem C01_fresh_water_works_keep_their_books : forall S (P : port S) (K : contract S P),
+  (forall s v, okS S P K s -> wet v -> forall k, vol (snd (p_push_set P s v)) <= 0 -> get (adds (snd (p_push_set P s v))) k == 0) ->
+  forall maxiter (f f' : Wtw.fwtw S) c, conserved c ->
+  star_ok S P K (Wtw.fw_ins S f) -> star_ok S P K (Wtw.fw_outs S f) -> 0 <= Wtw.w_cap (Wtw.fw_p S f) ->
+  Wtw.fw_treat_water S P maxiter f = Some f' ->
+  wet (Wtw.fw_treated S f') -> wet (vsum (Wtw.fw_liquor S f') (Wtw.fw_solids S f')) ->
+  (cmp c (t_sto (Wtw.fw_tank S f')) - cmp c (t_sto (Wtw.fw_tank S f)))
+  + (sumvin S c (Wtw.fw_outs S f') - sumvin S c (Wtw.fw_outs S f))
+  + (cmp c (Wtw.fw_unpushed S f') - cmp c (Wtw.fw_unpushed S f))
+  ==
+  (sumvin S c (Wtw.fw_ins S f') - sumvin S c (Wtw.fw_ins S f))
+  + (cmp c (Wtw.fw_deficit S f') - cmp c (Wtw.fw_deficit S f))
+  + cmp c (Wtw.fw_treated S f).
+Proof. exact WtwLaws.fw_treat_water_books. Qed.
+Print Assumptions C01_fresh_water_works_keep_their_books.
+(* ... and its hypotheses are met by a concrete works (one additive pollutant, nothing to abstract from: the whole
+   throughput is made up and booked as deficit) *)
+Example C01_fresh_water_works_nonvacuous : exists f',
+  Wtw.fw_treat_water _ Run.nbport 10 WtwLaws.fw_example = Some f' /\ 0 <= Wtw.w_cap (Wtw.fw_p _ WtwLaws.fw_example) /\
+  wet (Wtw.fw_treated _ f') /\ wet (vsum (Wtw.fw_liquor _ f') (Wtw.fw_solids _ f')) /\ 0 < vol (Wtw.fw_deficit _ f').
+Proof. exact WtwLaws.fw_example_ok. Qed.
+Print Assumptions C01_fresh_water_works_nonvacuous.
+
 (* ---- the pervious surface of a Land node (coq/LandV.v, tied by family land) ----
    IHACRES creates and loses no water: soil store after + infiltration excess + subsurface flow + percolation = soil store
    before + rain - evaporation, in every moisture state and for all soil parameters with coefficients in [0, 1] *)
